@@ -658,14 +658,14 @@ func normalizeSetValue(cfg *Config, opts *options, p cfgPath, name string, val v
 		// evaluated (what it names may not have been added yet, or belong to
 		// the configuration the input gets merged into), and nothing is
 		// stored in the setting it names.
-		return raiseDuplicateKey(cfg, name)
+		return raiseDuplicateKey(cfg, p.dotted())
 	}
 
 	old, err := p.GetValue(cfg, opts)
 	if err != nil {
 		if err.Reason() == ErrExpectedObject {
 			// a parent of name has already been defined as a primitive value
-			return raiseDuplicateKey(loadCfg(opts, cfg), name)
+			return raiseDuplicateKey(loadCfg(opts, cfg), p.dotted())
 		}
 		if err.Reason() != ErrMissing {
 			return err
@@ -678,14 +678,14 @@ func normalizeSetValue(cfg *Config, opts *options, p cfgPath, name string, val v
 		if indexesPrimitive(cfg, opts, p) {
 			// like any other value: name spells a list, the other spelling
 			// found first has defined a primitive value
-			return raiseDuplicateKey(loadCfg(opts, cfg), name)
+			return raiseDuplicateKey(loadCfg(opts, cfg), p.dotted())
 		}
 		return nil
 	case isNil(old):
 		err := p.SetValue(cfg, opts, val)
 		if err != nil && err.Reason() == ErrExpectedObject {
 			// a parent of name has already been defined as a primitive value
-			return raiseDuplicateKey(loadCfg(opts, cfg), name)
+			return raiseDuplicateKey(loadCfg(opts, cfg), p.dotted())
 		}
 		return err
 	case isSub(old) && isSub(val):
@@ -693,13 +693,13 @@ func normalizeSetValue(cfg *Config, opts *options, p cfgPath, name string, val v
 		cfgVal, _ := val.toConfig(opts)
 		// Both spellings of the namespace must not define the same setting,
 		// no matter which one has been found first.
-		if err := checkNoDuplicates(cfgOld, cfgVal); err != nil {
+		if err := checkNoDuplicates(loadCfg(opts, cfg), p.dotted(), cfgOld, cfgVal); err != nil {
 			return err
 		}
 		uniteConfigs(cfgOld, cfgVal)
 		return nil
 	default:
-		return raiseDuplicateKey(loadCfg(opts, cfg), name)
+		return raiseDuplicateKey(loadCfg(opts, cfg), p.dotted())
 	}
 }
 
@@ -752,15 +752,18 @@ func indexesPrimitive(cfg *Config, opts *options, p cfgPath) bool {
 
 // checkNoDuplicates reports a duplicate key if a and b, two partial
 // definitions of the same namespace within one input, both define a setting.
-func checkNoDuplicates(a, b *Config) Error {
+func checkNoDuplicates(at *Config, prefix string, a, b *Config) Error {
+	// at is the object of the input that holds the namespace, prefix the
+	// (dotted) name of the namespace in it: a and b are detached parts that
+	// do not know where in the input they are
 	check := func(name string, va, vb value) Error {
 		if isNil(va) || isNil(vb) {
 			return nil
 		}
 		if !isSub(va) || !isSub(vb) {
-			return raiseDuplicateKey(a, name)
+			return raiseDuplicateKey(at, prefix+"."+name)
 		}
-		return checkNoDuplicates(va.(cfgSub).c, vb.(cfgSub).c)
+		return checkNoDuplicates(at, prefix+"."+name, va.(cfgSub).c, vb.(cfgSub).c)
 	}
 
 	for k, vb := range b.fields.dict() {
